@@ -275,7 +275,7 @@ def gen_tl(rs, names: List[str], n: Optional[int] = None, must: Optional[List[st
     terms = [gen_term(rs, names, must) for _ in range(n)]
     if shapes and terms and rs.random() < 0.45:
         # adversarial shapes: duplicates, parallel rows, opposite rows, boxes
-        kind = rs.choice(["dup", "parallel", "opposite", "box", "scaled", "difference", "difference", "difference", "corner", "single", "near", "partial_parallel", "ladder", "fork", "fork", "tight_contradiction"])
+        kind = rs.choice(["dup", "parallel", "opposite", "box", "scaled", "difference", "difference", "difference", "corner", "single", "near", "partial_parallel", "ladder", "ladder", "fork", "fork", "fork", "fork", "tight_contradiction", "tight_contradiction"])
         t = rs.choice(terms)
         cf = {k: float.fromhex(v[1]) for k, v in t["T"]}
         c0 = float.fromhex(t["c"][1])
